@@ -20,4 +20,15 @@ PROPS = {
         'assumptions': ['warning kind is recovered from which referenced id the message mentions (keyword fallback)',
                         'names and messages are not modelled'],
     },
+    'C16': {
+        'agree': 'agree_C16 (Model/Purge.v)',
+        'technique': 'Coq proof (membership iff declarative reachability per collection, sublist order, idempotence, no new warning) + vm_compute correspondence',
+        'level_text': 'Theorems C16_*_exact state for every model that each of the 12 purged collections keeps exactly the items reachable from the remaining elements (spaces from walls; loads/thermostats from kept spaces; year/week/day schedules down the chain; constructions, materials, glazings, frames; bridges with |l| > eps), in their original relative order (C16_order), that purge is idempotent, touches nothing else and introduces no checker warning. The model is tied to bemodel::purge_unused by evaluating both on the same generated and shipped models and comparing the id lists of all 15 collections inside Coq; indicator invariance is observed on the implementation per case.',
+        'level_note': 'Trusted: Coq kernel + vm_compute; harness generator/printer. Indicator invariance (a_ref, volumes, K, n50, q_sol;jul) is compared on the implementation before/after purge per case, and proved for the K/n50 models in Properties/C16.v where stated.',
+        'n': {'quick': 400, 'thorough': 12000},
+        'codes': {'1': 'ids per collection after purge differ from the model (something reachable removed, something unreachable kept, or order changed)',
+                  '2': 'a kept item is not field-for-field the original', '3': 'purging twice differs from purging once',
+                  '4': 'purge introduced a checker warning', '5': 'an indicator changed'},
+        'assumptions': ['names are not modelled; item contents are compared as JSON values by the harness'],
+    },
 }
